@@ -339,6 +339,123 @@ def lexer_symbols():
     }
 
 
+# ---------------------------------------------------------------- classifier tables (C05)
+
+# the base classes the navigation primitives and the post passes test with isinstance / type() ==
+CLASSIFY_BASES = [
+    "vsg.parser.whitespace",
+    "vsg.parser.carriage_return",
+    "vsg.parser.comment",
+    "vsg.parser.blank_line",
+    "vsg.parser.preprocessor",
+    "vsg.parser.todo",
+    "vsg.parser.keyword",
+    "vsg.parser.assignment",
+    "vsg.parser.comma",
+    "vsg.parser.open_parenthesis",
+    "vsg.parser.close_parenthesis",
+    "vsg.parser.type",
+    "vsg.parser.function",
+    "vsg.token.delimited_comment.text",
+    "vsg.token.resolution_indication.resolution_function_name",
+    "vsg.token.type_mark.name",
+    "vsg.token.attribute_name.name",
+    "vsg.token.attribute_name.attribute",
+    "vsg.token.todo.name",
+    "vsg.token.exponent.e_keyword",
+    "vsg.token.exponent.plus_sign",
+    "vsg.token.exponent.minus_sign",
+    "vsg.token.choices.bar",
+    "vsg.token.logical_operator.logical_operator",
+    "vsg.token.if_statement.if_keyword",
+    "vsg.token.if_statement.elsif_keyword",
+    "vsg.token.if_statement.else_keyword",
+    "vsg.token.if_statement.semicolon",
+    "vsg.token.aggregate.open_parenthesis",
+    "vsg.token.element_association.assignment",
+]
+# classes the post passes construct
+CLASSIFY_TARGETS = [
+    "vsg.parser.item",
+    "vsg.parser.whitespace",
+    "vsg.parser.keyword",
+    "vsg.parser.semicolon",
+    "vsg.token.delimited_comment.text",
+    "vsg.token.sign.minus",
+    "vsg.parser.todo",
+    "vsg.parser.comma",
+    "vsg.parser.open_parenthesis",
+    "vsg.parser.close_parenthesis",
+    "vsg.parser.tic",
+    "vsg.parser.character_literal",
+    "vsg.token.predefined_attribute.keyword",
+    "vsg.token.predefined_attribute.event_keyword",
+    "vsg.token.adding_operator.plus",
+    "vsg.token.adding_operator.minus",
+    "vsg.token.multiplying_operator.star",
+    "vsg.token.multiplying_operator.slash",
+    "vsg.token.miscellaneous_operator.double_star",
+    "vsg.token.todo.name",
+    "vsg.token.todo.open_parenthesis",
+    "vsg.token.todo.close_parenthesis",
+    "vsg.token.aggregate.open_parenthesis",
+    "vsg.token.aggregate.close_parenthesis",
+    "vsg.token.exponent.e_keyword",
+    "vsg.token.exponent.plus_sign",
+    "vsg.token.exponent.minus_sign",
+    "vsg.token.exponent.integer",
+]
+
+
+def lean_ident(name):
+    return name.replace("vsg.token.", "").replace("vsg.", "").replace(".", "_")
+
+
+def classify_tables(crow, classes):
+    """isinstance facts, the string maps of vhdlFile.py and predefined_attribute.values, read from
+    the imported modules of /repo"""
+    import vsg.vhdlFile.vhdlFile  # noqa: F401
+    from vsg.token import predefined_attribute
+
+    VF = sys.modules["vsg.vhdlFile.vhdlFile"]
+    idx = {r["name"]: r["idx"] for r in crow}
+
+    def cidx(c):
+        return idx[c.__module__ + "." + c.__qualname__]
+
+    sub = {}
+    for b in CLASSIFY_BASES:
+        base = classes[b]
+        sub[b] = [r["idx"] for r in crow if issubclass(classes[r["name"]], base)]
+    tgt = {t: idx[t] for t in CLASSIFY_TARGETS}
+    todo_map = [[k, cidx(v)] for k, v in VF.dParserTodoStringMap.items()]
+    add_map = [[k, cidx(v["unary"]), cidx(v["binary"])] for k, v in VF.dUnaryOrBinaryAdditionOperatorStringMap.items()]
+    log_map = [[k, cidx(v["unary"]), cidx(v["binary"])] for k, v in VF.dUnaryOrBinaryLogicalOperatorStringMap.items()]
+    return {"sub": sub, "idx": tgt, "todoMap": todo_map, "addMap": add_map, "logMap": log_map, "predefinedAttributeValues": list(predefined_attribute.values)}
+
+
+def emit_classify(ct):
+    L = []
+    L.append("/- GENERATED by harness/gen_tables.py from vsg.parser, vsg.token.*, vsg.vhdlFile.vhdlFile of /repo — do not edit -/")
+    L.append("namespace Vsgm.Gen")
+    L.append("/-! class indices `c` with `issubclass(class c, <base>)` -/")
+    for b, xs in ct["sub"].items():
+        chunked(L, "sub_" + lean_ident(b), "Nat", [str(x) for x in xs])
+    L.append("/-! class indices of the classes the post passes construct -/")
+    for t, i in ct["idx"].items():
+        L.append(f"def idx_{lean_ident(t)} : Nat := {i}")
+    L.append("/-- dParserTodoStringMap: lower-cased value -> class index -/")
+    L.append("def parserTodoStringMap : List (String × Nat) := " + lean_list([f"({lean_str(k)}, {v})" for k, v in ct["todoMap"]]))
+    L.append("/-- dUnaryOrBinaryAdditionOperatorStringMap: value -> (unary, binary) -/")
+    L.append("def addOpMap : List (String × Nat × Nat) := " + lean_list([f"({lean_str(k)}, {u}, {b})" for k, u, b in ct["addMap"]]))
+    L.append("/-- dUnaryOrBinaryLogicalOperatorStringMap -/")
+    L.append("def logOpMap : List (String × Nat × Nat) := " + lean_list([f"({lean_str(k)}, {u}, {b})" for k, u, b in ct["logMap"]]))
+    L.append("/-- predefined_attribute.values -/")
+    L.append("def predefinedAttributeValues : List String := " + lean_list([lean_str(x) for x in ct["predefinedAttributeValues"]]))
+    L.append("end Vsgm.Gen")
+    return "\n".join(L) + "\n"
+
+
 # ---------------------------------------------------------------- emit
 
 
@@ -496,7 +613,10 @@ def generate(verbose=False):
         changed.append("ClassUids.lean")
     if write_if_changed(os.path.join(GEN, "CharTables.lean"), emit_chars(ct, sym)):
         changed.append("CharTables.lean")
-    tables = {"rules": rrows, "classes": crow, "chars": {k: (v if k not in ("lowerPairs", "upperPairs") else v) for k, v in ct.items()}, "symbols": sym}
+    cft = classify_tables(crow, classes)
+    if write_if_changed(os.path.join(GEN, "ClassifyTables.lean"), emit_classify(cft)):
+        changed.append("ClassifyTables.lean")
+    tables = {"rules": rrows, "classes": crow, "chars": {k: (v if k not in ("lowerPairs", "upperPairs") else v) for k, v in ct.items()}, "symbols": sym, "classify": cft}
     with open(os.path.join(CACHE, "tables.json"), "w") as f:
         json.dump(tables, f)
     if verbose:
